@@ -408,6 +408,17 @@ Fixpoint scan (r : mrule) (c : option cur) (b : list stmt) : list stmt :=
 
 Definition merge_block (r : mrule) (b : list stmt) : list stmt := scan r None b.
 
+(* the pass in every statement list of a nested program (core.walk_sequence visits every body / orelse) *)
+Fixpoint merge_s (r : mrule) (s : stmt) : stmt :=
+  let mb := fix mb (b : list stmt) : list stmt :=
+    match b with [] => [] | s1 :: tl => merge_s r s1 :: mb tl end in
+  match s with
+  | SIf c b1 b2 => SIf c (merge_block r (mb b1)) (merge_block r (mb b2))
+  | SFor t it body => SFor t it (merge_block r (mb body))
+  | _ => s
+  end.
+Definition merge_deep (r : mrule) (b : list stmt) : list stmt := merge_block r (map (merge_s r) b).
+
 (* the rules before the repairs: every following statement of the right shape is folded *)
 Definition mod_of_old (r : mrule) (x : nat) (s : stmt) : option (list expr) :=
   match r, s with
@@ -779,7 +790,7 @@ Fixpoint block_eqb (x y : list stmt) : bool :=
   end.
 
 (* statement-level rules of the case files *)
-Inductive brule := BMerge (r : mrule) | BImmRet | BFilter | BItems (us_read : bool).
+Inductive brule := BMerge (r : mrule) | BMergeDeep (r : mrule) | BImmRet | BFilter | BItems (us_read : bool).
 
 Definition map_opt {A} (f : A -> option A) (l : list A) : list A :=
   map (fun a => match f a with Some a' => a' | None => a end) l.
@@ -791,6 +802,7 @@ Definition iter5 {A} (f : A -> A) (a : A) : A := f (f (f (f (f a)))).   (* proce
 Definition apply_brule (r : brule) (b : list stmt) : list stmt :=
   match r with
   | BMerge m => iter5 (merge_block m) b
+  | BMergeDeep m => iter5 (merge_deep m) b
   | BImmRet => iter5 rw_immret b
   | BFilter => map_opt rw_filter b
   | BItems u => map_opt (rw_items u) b
